@@ -77,7 +77,17 @@ def materialise(v, env):
             return A.DDMAngle(*a[1:])
         raise ValueError(k)
     if '$array' in v:
-        return env.np.array(v['$array'], dtype=v.get('dtype', 'float64'))
+        np = env.np
+        a = np.array(v['$array'], dtype=v.get('dtype', 'float64'), order=v.get('order', 'C'))
+        if v.get('strided'):
+            # a non-contiguous view into a larger caller-owned buffer
+            base = np.zeros(tuple(2 * n for n in a.shape), dtype=a.dtype)
+            view = base[tuple(slice(None, None, 2) for _ in a.shape)]
+            view[...] = a
+            a = view
+        if v.get('readonly'):
+            a.flags.writeable = False
+        return a
     if '$date' in v:
         return datetime.date.fromisoformat(v['$date'])
     if '$cls' in v:
@@ -248,12 +258,24 @@ def r_proj(rng):
     return {'$proj': [500000, 10000000, rng.choice([0.9996, 0.9999, 1.0]), 6, -177]}
 
 
+def _array_kind(rng, lit):
+    """unusual but valid kinds of caller arrays: Fortran order, a strided view, read-only"""
+    k = rng.random()
+    if k < 0.08:
+        lit['order'] = 'F'
+    elif k < 0.16:
+        lit['strided'] = True
+    elif k < 0.22:
+        lit['readonly'] = True
+    return lit
+
+
 def r_vcv(rng, shape='3x3'):
     if shape == '3x1':
-        return {'$array': [[round(rng.uniform(1e-6, 1e-2), 9)] for _ in range(3)]}
+        return _array_kind(rng, {'$array': [[round(rng.uniform(1e-6, 1e-2), 9)] for _ in range(3)]})
     a = [[rng.uniform(-0.05, 0.05) for _ in range(3)] for _ in range(3)]
     m = [[sum(a[i][k] * a[j][k] for k in range(3)) + (1e-6 if i == j else 0.0) for j in range(3)] for i in range(3)]
-    return {'$array': m}
+    return _array_kind(rng, {'$array': m})
 
 
 def r_date(rng):
@@ -329,9 +351,9 @@ for _n in ['hp2dec', 'hp2deca', 'hp2rad', 'hp2gon', 'hp2gona', 'hp2dms', 'hp2ddm
 for _n in ['gon2dec', 'gon2deca', 'gon2hp', 'gon2hpa', 'gon2rad', 'gon2dms', 'gon2ddm']:
     _simple('angles.' + _n, 'f:angles.' + _n, lambda rng, ctx: [r_float(rng, -800, 800, (0.0, 100.0, 399.9999))])
 _simple('angles.dec2hp_v', 'f:angles.dec2hp_v',
-        lambda rng, ctx: [{'$array': [r_float(rng, -360, 360) for _ in range(rng.randrange(1, 21))]}], mutable=True)
+        lambda rng, ctx: [_array_kind(rng, {'$array': [r_float(rng, -360, 360) for _ in range(rng.randrange(1, 21))]})], mutable=True)
 _simple('angles.hp2dec_v', 'f:angles.hp2dec_v',
-        lambda rng, ctx: [{'$array': [r_hp(rng, 359) for _ in range(rng.randrange(1, 21))]}], mutable=True)
+        lambda rng, ctx: [_array_kind(rng, {'$array': [r_hp(rng, 359) for _ in range(rng.randrange(1, 21))]})], mutable=True)
 _simple('angles.angular_typecheck', 'f:angles.angular_typecheck',
         lambda rng, ctx: [r_angle(rng) if rng.random() < 0.8 else r_float(rng, -360, 360)], mutable=True)
 
